@@ -72,7 +72,14 @@ fn main() {
          distinct by digest of the reference result",
     );
     let root = Rng::new(args.seed);
-    let mut world = World::new();
+    let mut world = match World::try_new() {
+        Ok(w) => w,
+        Err(msg) => {
+            report.oracle_failure(0, "", &format!("the engine failed while bootstrapping the ledger and creating accounts: {}", msg.chars().take(400).collect::<String>()), json!({"phase": "bootstrap", "seed": args.seed}));
+            report.write(&args.out).unwrap();
+            return;
+        }
+    };
     let warm = VmModules::<DefaultWasmEngine, NoExtension>::default();
     let is_child = args.extra.contains_key("child");
     if is_child {
